@@ -279,8 +279,8 @@ Arguments h_token {G} _.
 Arguments h_state {G} _.
 
 (* which variant the code in /repo currently is (flip when a proposed fix is applied) *)
-Definition code_counts_occurrences : bool := true.
-Definition code_latest_result_first : bool := true.
+Definition code_counts_occurrences : bool := false.
+Definition code_latest_result_first : bool := false.
 
 (* ---------- the executable instance: Normal natural parameters over Qc ---------- *)
 Definition N2 := (Qc * Qc)%type.
